@@ -483,8 +483,18 @@ class World:
     def getattr(self, it, o, attr, node):
         if isinstance(o, Obj) and attr in ("next_states", "has_next_states") and it.stack:
             fi = it.stack[-1].fi
+            names = [(f.fi.name if f.fi else "<module>") for f in it.stack]
+            # reads made by the bookkeeping of an element's `step` (the frame `step` and what it
+            # calls outside `step_dynamics`) store / test the results; any other read is the
+            # dynamics (or the network loop) looking at the previous step's results
+            book = False
+            if "step" in names:
+                i = len(names) - 1 - names[::-1].index("step")
+                owner = it.stack[i].fi
+                book = owner is not None and owner.cls is not None and owner.cls.endswith(":ElementWithVars") \
+                    and "step_dynamics" not in names[i:]
             it.event("next-states-read", node, f"`{attr}` of {o.ident} read in {fi.qualname if fi else '<module>'}",
-                     data=(fi.qualname if fi else "<module>"))
+                     data=((fi.qualname if fi else "<module>"), book))
         if isinstance(o, Obj) and o.kind == "net":
             return self._net_attr(it, attr, node)
         if isinstance(o, Obj) and o.kind == "engine":
